@@ -207,11 +207,12 @@ def hittable_beats(grid):
 def explore_shard(acc, shard):
     kind = shard[0]
     if kind == "sets":
-        _, grid, famname, first, max_events, seed = shard
+        _, grid, famname, first, max_events, seed = shard[:6]
+        tiny = len(shard) > 6 and shard[6]
         fam = TC.family(famname, seed)
-        evs = TC.all_events(grid)
+        evs = TC.all_events(grid, tiny)
         beats = hittable_beats(grid)
-        layer = f"{grid} grid, {famname} values"
+        layer = f"{grid} grid, {famname} values" + (", with a warp shorter than half a tick" if tiny else "")
 
         def visit(sel):
             events = tuple(evs[i] for i in sel)
@@ -284,6 +285,9 @@ def explore(run):
         shards.append(("sets", grid, fam, None, max_events, run.seed))
         for i in range(len(TC.all_events(grid))):
             shards.append(("sets", grid, fam, i, max_events, run.seed))
+    # warps whose positive length snaps to zero ticks, alone and together with 1 (thorough: <= 3) other events
+    for i in range(4):
+        shards.append(("sets", "coarse", "dyadic", i, 4 if run.thorough() else 2, run.seed, True))
     shards += [("corpus", i) for i in range(len(N.corpus_charts()))]
     k = run.seed % len(shards)
     shards = shards[k:] + shards[:k]
